@@ -15,7 +15,10 @@ pub const BLOCK_SIZE: usize = 1 << BLOCK_SHIFT;
 // block mask
 const BLOCK_MASK: usize = BLOCK_SIZE - 1;
 // block shift
+#[cfg(not(kani))]
 const BLOCK_SHIFT: usize = 6;
+#[cfg(kani)]
+const BLOCK_SHIFT: usize = 2;
 
 /// A slot in a block.
 struct Slot<T> {
